@@ -1,5 +1,5 @@
 (* C16 — with max_concurrent = k, at no instant are more than k jobs launched and unfinished. *)
-From Pydra Require Import Base.Prelude Base.SchedBase Model.Sched Spec.Sched Proofs.SchedG Proofs.SchedI.
+From Pydra Require Import Base.Prelude Base.SchedBase Model.Sched Spec.Sched Proofs.SchedG Proofs.SchedI Proofs.SchedTermA.
 
 Definition C16_statement (vr : variant) : Prop :=
   forall (V : Type) (body : nat -> nat -> list (list (option V)) -> V) (fails : job -> bool)
@@ -41,3 +41,24 @@ Print Assumptions C16_refuted.
 Example C16_repaired_same_oracle :
   peak (event_log (run_async unit (fun _ _ _ => tt) (fun _ => false) repaired f16_graph (Some 2) f16_oracle 20)) = 2.
 Proof. vm_compute. reflexivity. Qed.
+
+(* Total version: with fuel >= |jobs| + 2 the run has ended (Finished or Stalled; termination with failing
+   jobs: Proofs/SchedTermA.v), so the bound holds at every instant of the COMPLETE start/finish log. *)
+Theorem C16_full_total :
+  forall (V : Type) (body : nat -> nat -> list (list (option V)) -> V) (fails : job -> bool)
+         (g : graph) (k : nat) (orc : list oracle_step) (fuel : nat),
+    wf_graph g -> 1 <= k -> List.length (all_jobs g) + 2 <= fuel ->
+    let o := run_async V body fails repaired g (Some k) orc fuel in
+    (o_status o = Finished \/ o_status o = Stalled) /\ concurrency_bounded k (event_log o).
+Proof.
+  intros V body fails g k orc fuel WF K B o. split.
+  - apply (async_terminates_full V body fails repaired eq_refl g WF (Some k)); [|exact B].
+    intros k' E. inversion E; subst; exact K.
+  - apply C16_full; exact WF.
+Qed.
+Print Assumptions C16_full_total.
+
+Example C16_total_nonvacuous :
+  wf_graph f16_graph /\ 1 <= 2 /\ List.length (all_jobs f16_graph) + 2 <= 20
+  /\ o_status (run_async unit (fun _ _ _ => tt) (fun _ => false) repaired f16_graph (Some 2) f16_oracle 20) = Finished.
+Proof. vm_compute. repeat split; repeat constructor. Qed.
